@@ -92,6 +92,12 @@ def _ste_job(which: str, rounding: str, srbits_given: bool) -> Callable[[], Reco
             x = leaf(ctx, "x", Shape([Run(ctx, "a")]))
 
             def thunk() -> Any:
+                if rounding == "stochastic":
+                    # an earlier use, in the same process, of ANOTHER format with the same exponent /
+                    # mantissa bits and rounding mode but a different number of random bits
+                    other = it.call(lookup_fn(it, FM + "FPFormat"), [fmt.attrs["exponent_bits"], fmt.attrs["mantissa_bits"]], {"rounding": rounding, "srbits": 1})
+                    x0 = leaf(ctx, "x_earlier", Shape([Run(ctx, "a0")]))
+                    it.call(it.getattr(other, which), [x0], {})
                 body = it.call(it.getattr(fmt, which), [x], {})
                 spec = (spec_quantise_fwd if which == "quantise_fwd" else spec_quantise_bwd)(it, fmt, x)
                 return body, spec, x
@@ -115,7 +121,7 @@ def _ste_job(which: str, rounding: str, srbits_given: bool) -> Callable[[], Reco
 
 for _w in ("quantise_fwd", "quantise_bwd"):
     for _r, _s in (("nearest", False), ("stochastic", False), ("stochastic", True)):
-        register(Job(f"c15:{_w}[{_r},srbits_given={_s}]", ["C15"], FM + "FPFormat." + _w, {"rounding": _r, "srbits_given": _s}, _ste_job(_w, _r, _s)))
+        register(Job(f"c15:{_w}[{_r},srbits_given={_s}]", ["C15", "C14"] if _r == "stochastic" else ["C15"], FM + "FPFormat." + _w, {"rounding": _r, "srbits_given": _s}, _ste_job(_w, _r, _s), shared=True))
 
 
 def _roundtrip_job(rounding: str, srbits_given: bool) -> Callable[[], Record]:
